@@ -105,6 +105,23 @@ func genC10(seed uint64) *Plan {
 		}
 		g.fault(f)
 	}
+	if g.pct(30) && nslots >= 2 {
+		// eviction mode: a member's EndTxn (often its first) stays in the
+		// network longer than the rebalance time-out while another member
+		// joins: the member inside End cannot rejoin, is evicted, its
+		// partitions go to the other member before the transaction ends
+		k["rebalance_ms"] = g.pick(2000, 3000, 5000)
+		k["session_ms"] = g.pick(6000, 10000)
+		k["heartbeat_ms"] = g.pick(300, 1000)
+		k["txn_timeout_ms"] = 30000
+		g.fault(Fault{Kind: "delay", Client: fmt.Sprintf("e%d.0", g.rng(0, 1)), Broker: -1, Key: 26, Nth: int(g.pick(1, 1, 1, 1, 2)), DurMs: k["rebalance_ms"] + g.rng(1500, 6000)})
+		// the second member joins while that EndTxn is out
+		for i := range g.P.Actors {
+			if g.P.Actors[i].Name == "churn" {
+				g.P.Actors[i].Ops = append([]Op{{Kind: "join", A: 0}, {Kind: "sleep", A: g.pick(200, 1000, 3000)}, {Kind: "join", A: 1}}, g.P.Actors[i].Ops[1:]...)
+			}
+		}
+	}
 	g.moves(int(g.rng(0, 3)), 2, nparts, horizon)
 	if g.pct(30) {
 		g.P.Events = append(g.P.Events, Event{AtMs: g.rng(1, horizon), Kind: "rehash"})
